@@ -12,7 +12,7 @@ use super::vfs::VfsPathBuf;
 lazy_static! {
     pub(crate) static ref FLOAT_RE: Regex = Regex::new(r"^-?[0-9][0-9_]*\.[0-9][0-9_]*").unwrap();
     pub(crate) static ref INTEGER_RE: Regex = Regex::new(r"^-?[0-9][0-9_]*").unwrap();
-    pub(crate) static ref STRING_RE: Regex = Regex::new(r#"^"(\\"|[^"])*("|\z)"#).unwrap();
+    pub(crate) static ref STRING_RE: Regex = Regex::new(r#"^"(\\.|[^"])*("|\z)"#).unwrap();
     pub(crate) static ref SYMBOL_RE: Regex = Regex::new(r"^[a-zA-Z_][a-zA-Z0-9_]*").unwrap();
 }
 
@@ -636,6 +636,25 @@ mod tests {
                     "// 2\n"
                 )],
             })
+        );
+    }
+
+    #[test]
+    fn test_lex_string_ending_with_backslash() {
+        let vfs_path = VfsPathBuf {
+            path: Rc::new(PathBuf::from("__test.gdn")),
+            id: VfsId(1),
+        };
+
+        // The escaped backslash must not escape the closing doublequote.
+        assert_eq!(
+            lex(&vfs_path, r#"["a\\", "b"]"#)
+                .0
+                .tokens
+                .iter()
+                .map(|token| token.text)
+                .collect::<Vec<_>>(),
+            vec!["[", r#""a\\""#, ",", r#""b""#, "]"]
         );
     }
 
